@@ -144,22 +144,29 @@ public:
       // max size reached or invalid key/value. Returning empty TraceState
       return TraceState::GetDefault();
     }
-    auto allocate_size = curr_size;
-    if (curr_size < kMaxKeyValuePairs)
+    // An existing key is updated (moved to the front) instead of being added a second time.
+    std::string unused;
+    const bool key_present = kv_properties_->GetValue(key, unused);
+    auto allocate_size     = curr_size;
+    if (!key_present && curr_size < kMaxKeyValuePairs)
     {
       allocate_size += 1;
     }
     nostd::shared_ptr<TraceState> ts(new TraceState(allocate_size));
-    if (curr_size < kMaxKeyValuePairs)
+    if (key_present || curr_size < kMaxKeyValuePairs)
     {
       // add new field first
       ts->kv_properties_->AddEntry(key, value);
     }
     // add rest of the fields.
-    kv_properties_->GetAllEntries([&ts](nostd::string_view key, nostd::string_view value) {
-      ts->kv_properties_->AddEntry(key, value);
-      return true;
-    });
+    kv_properties_->GetAllEntries(
+        [&ts, &key](nostd::string_view e_key, nostd::string_view e_value) {
+          if (key != e_key)
+          {
+            ts->kv_properties_->AddEntry(e_key, e_value);
+          }
+          return true;
+        });
     return ts;
   }
 
